@@ -1,5 +1,7 @@
 (* C08 handlers: NSTART accounting.
-   case:  ns <fixed 0|1> <nsess> {<nstart>,<maxrt>,<est0 0|1>,<udp 0|1>}*nsess <op>*
+   case:  ns <fixed 0|1> <nsess> {<nstart>,<maxrt>,<est0 0|1>,<udp 0|1>[,<c|s>]}*nsess <op>*
+          (c = client session sending requests - the default; s = server-side session of an
+           endpoint sending responses)
    ops :  S<sid>,<c|n>,<mid>,<tok>   coap_send of a CON/NON
           A<sid>,<mid>  R<sid>,<mid>  ACK / RST arrives        T<sid>,<mid>  timer of that node fires
           P<sid>,<tok>[,<peer mid>]  separate NON response with the token (the peer's own message
@@ -18,7 +20,11 @@ let rest s = String.sub s 1 (String.length s - 1)
 let parse_cfg fixed s =
   match split_commas s with
   | [n; r; e; u] ->
-      ({ ns_nstart = zi n; ns_maxrt = zi r; ns_udp = (u = "1"); ns_fixed = fixed }, e = "1")
+      ({ ns_nstart = zi n; ns_maxrt = zi r; ns_udp = (u = "1"); ns_fixed = fixed; ns_client = true },
+       e = "1")
+  | [n; r; e; u; k] ->      (* k: c = client session, s = server-side session *)
+      ({ ns_nstart = zi n; ns_maxrt = zi r; ns_udp = (u = "1"); ns_fixed = fixed;
+         ns_client = (k <> "s") }, e = "1")
   | _ -> failwith "ns cfg"
 
 let is_err_op s = (s = "E")
